@@ -14,7 +14,12 @@ A compression loop without the visited-offset check spins forever and hits the b
 
 Parts: (A, deciding, deterministic for a VERIF_SEED) a seeded structure-aware mutator over a corpus of
 valid encodings from the C32 generator plus hand-made hostile packets (pointer self/mutual/long
-cycles, bogus rdlength for every record type, truncation at every offset, count fields of 65535);
+cycles, bogus rdlength for every record type, truncation at every offset, count fields of 65535) and a
+structured family of compression-pointer CHAINS (pointer -> pointer -> ... up to the 8190 hops that the
+14-bit offset space allows, forward / backward / shuffled, with and without labels between hops, in
+messages of up to 4 KiB / 16 KiB / 64 KiB, ending in a literal label or in a cycle): the iterative
+reference reader says which name (or "loop") is right, the real decoder must return exactly that name
+resp. refuse with ValueError/EOFError, within the line budget;
 (B, additional) coverage-guided fuzzing with atheris/libFuzzer in a subprocess seeded with the same
 corpus (-runs=N -max_len=4096); a crash input is saved as witness and re-judged by monitor A's oracle.
 If atheris is not importable this is only noted (part A still decides).
@@ -44,6 +49,8 @@ ASSUMPTIONS = ["termination is decided by a budget of n^2+500n+50000 executed li
 SHARDS = {"quick": 4, "thorough": 16}
 FLOORS = {"decode_calls": 100000, "outcome_returned": 10000, "outcome_EOFError": 5000, "outcome_ValueError": 500,
           "udp_datagrams": 25000, "tcp_messages": 25000, "inputs_with_pointer_cycle": 1000, "mutated_inputs": 25000,
+          "pointer_chain_cases": 300, "long_pointer_chains": 100, "pointer_chains_of_8000_hops_or_more": 5,
+          "pointer_chain_names_compared": 150, "pointer_chains_ending_in_cycle": 80,
           "atheris_or_noted": 1}
 WATCHDOG_S = {"quick": 900, "thorough": 3600}
 READY = True
@@ -219,6 +226,108 @@ def build_corpus(ctx, dns):
     return corpus
 
 
+# ---- structured family: compression-pointer chains ---------------------------------------------------------------
+
+CHAIN_HOPS = (1, 2, 3, 10, 100, 127, 128, 129, 500, 900, 990, 1000, 1010, 1100, 1500, 2000, 2030, 3000, 5000, 8000, 8180)
+CHAIN_LAYOUTS = ("forward", "backward", "shuffled", "labelled", "forward-cycle", "backward-cycle", "shuffled-cycle-mid")
+
+
+def chain_message(rng, hops, layout, size):
+    """A message of at most `size` octets whose question name, answer owner and NS RDATA all start a chain of
+    `hops` compression pointers.  Returns bytes or None when it does not fit (offsets must stay < 0x4000)."""
+    base = 12 + 2 + 4 + 2 + 10 + 2  # header, question (pointer, type, class), answer (pointer, fixed part, rdata pointer)
+    labelled = layout == "labelled"
+    slot = 4 if labelled else 2  # "\x01x" + pointer, or a bare pointer
+    end = base + hops * slot
+    lit = b"\x03end\x00"
+    if end + len(lit) > min(size, 0x4000):
+        return None
+    order = list(range(hops))  # order[i] = slot index visited i-th
+    if layout.startswith("backward"):
+        order.reverse()
+    elif layout.startswith("shuffled"):
+        rng.shuffle(order)
+    off = lambda slot_index: base + slot_index * slot
+    region = bytearray(hops * slot)
+    for i, sidx in enumerate(order):
+        if i + 1 < hops:
+            target = off(order[i + 1])
+        elif layout == "forward-cycle" or layout == "backward-cycle":
+            target = off(order[0])
+        elif layout == "shuffled-cycle-mid":
+            target = off(order[hops // 2])
+        else:
+            target = end
+        cell = (b"\x01x" if labelled else b"") + struct.pack("!H", 0xC000 | target)
+        region[sidx * slot:(sidx + 1) * slot] = cell
+    start = struct.pack("!H", 0xC000 | off(order[0]))
+    msg = hdr(1, 1) + start + b"\x00\x02\x00\x01" + start + struct.pack("!HHIH", 2, 1, 60, 2) + start + bytes(region) + lit
+    if size > len(msg) + 11 and size > 4096:  # pad to the size class with one more (NULL) record
+        pad = min(size, 65535) - len(msg) - 11
+        msg = msg[:6] + struct.pack("!H", 2) + msg[8:] + rr(b"\x00", 10, bytes(pad))
+    return msg
+
+
+def check_chain(ctx, mon, dns, data, hops, layout):
+    ctx.evaluated()
+    ctx.distinct(data)
+    ctx.count("pointer_chain_cases")
+    ctx.maxi("pointer_chain_hops", hops)
+    ctx.maxi("input_length", len(data))
+    if hops >= 1000:
+        ctx.count("long_pointer_chains")
+    if hops >= 8000:
+        ctx.count("pointer_chains_of_8000_hops_or_more")
+    try:
+        want = RD.read_name(data, 12, strict_len=False).labels
+    except RD.WireError as e:
+        want = e.reason
+    mon.budget_len = min(len(data), MAXLEN)  # <= 3 names x 8190 hops x ~10 lines, far below budget_for(4096)
+    try:
+        mon.check(data, origin="pointer-chain:%s:%d" % (layout, hops))
+    finally:
+        mon.budget_len = None
+    wit = {"input_hex": data.hex() if len(data) <= 6000 else data[:6000].hex(), "input_len": len(data), "layout": layout, "hops": hops,
+           "reference_reader": want if isinstance(want, str) else b".".join(want)}
+    mon.budget.start(min(len(data), MAXLEN))
+    try:
+        m = dns.Message()
+        m.fromStr(data)
+        got = [q.name.name for q in m.queries] + [a.name.name for a in m.answers] + [a.payload.name.name for a in m.answers[:1]]
+    except (EOFError, ValueError) as e:
+        got = type(e).__name__
+    except BaseException as e:  # already reported by mon.check with its own key
+        got = "raised " + type(e).__name__
+    if isinstance(want, str):
+        ctx.count("pointer_chains_ending_in_cycle")
+        if want == "pointer-loop" and got not in ("ValueError", "EOFError") and not str(got).startswith("raised"):
+            ctx.violation("pointer-chain-cycle-not-refused", "a pointer chain that ends in a cycle is decoded instead of refused",
+                          dict(wit, decoded=got))
+    elif not isinstance(got, str):
+        ctx.count("pointer_chain_names_compared")
+        name = b".".join(want)
+        if got[:3] != [name, name, name]:
+            ctx.violation("pointer-chain-name-differs", "the name reached through a pointer chain differs from the reference reader's",
+                          dict(wit, decoded=got[:3]))
+    elif not got.startswith("raised"):
+        ctx.violation("pointer-chain-refused", "an acyclic pointer chain is refused with %s" % got, dict(wit, decoded=got))
+
+
+def run_chains(ctx, mon, dns):
+    k = 0
+    for size in (4096, 16384, 65535):
+        for hops in CHAIN_HOPS:
+            for layout in CHAIN_LAYOUTS:
+                k += 1
+                if not ctx.owns(k) or mon.nonterm >= 3:
+                    continue
+                data = chain_message(ctx.case_rng("chain", size, hops, layout), hops, layout, size)
+                if data is None:
+                    ctx.count("pointer_chain_does_not_fit")
+                    continue
+                check_chain(ctx, mon, dns, data, hops, layout)
+
+
 # ---- mutator ----------------------------------------------------------------------------------------------------
 
 INTERESTING = [0x00, 0x01, 0x3F, 0x40, 0x7F, 0x80, 0xBF, 0xC0, 0xC1, 0xFF, 0x0C, 0x29, 0x26, 0x10]
@@ -363,10 +472,12 @@ class Monitor:
             tb = tb.tb_next
         return fn
 
+    budget_len = None  # set by the pointer-chain family: its legitimate work is linear in the number of hops
+
     def call(self, name, fn, data, origin):
         """Run one entry point under the line budget; judge the outcome."""
         ctx, b = self.ctx, self.budget
-        b.start(len(data))
+        b.start(len(data) if self.budget_len is None else self.budget_len)
         ctx.count("decode_calls")
         outcome = "returned"
         try:
@@ -379,10 +490,11 @@ class Monitor:
             outcome = "raised"
             if not b.exceeded:
                 where = self._where(e.__traceback__)
-                ctx.violation("decode-raises-%s-in-%s" % (type(e).__name__, where),
-                              "%s raises %s (not EOFError/ValueError) from %s" % (name, type(e).__name__, where),
+                key = "decode-raises-%s-in-%s" % (type(e).__name__, where)
+                first = key not in ctx.violations  # format the (possibly 1000-frame) traceback only for the kept witness
+                ctx.violation(key, "%s raises %s (not EOFError/ValueError) from %s" % (name, type(e).__name__, where),
                               {"entry": name, "input_hex": data.hex(), "input_len": len(data), "exception": repr(e)[:300], "origin": origin,
-                               "traceback": traceback.format_exception(type(e), e, e.__traceback__)[-3:]})
+                               "traceback": traceback.format_exception(type(e), e, e.__traceback__)[-3:]} if first else {})
         ctx.maxi("dns_lines_in_one_call", b.n)
         if b.exceeded:
             self.nonterm += 1
@@ -413,9 +525,10 @@ class Monitor:
             tname = f.type.__name__ if f is not None and getattr(f, "type", None) else "?"
             if tname == "StepBudgetExceeded":
                 continue
-            self.ctx.violation("udp-unexpected-decoding-error-%s" % tname, "datagramReceived logged a failure (%s): its catch-all was needed" % tname,
+            key = "udp-unexpected-decoding-error-%s" % tname
+            self.ctx.violation(key, "datagramReceived logged a failure (%s): its catch-all was needed" % tname,
                                {"input_hex": data.hex(), "origin": origin, "why": str(ev.get("why") or ev.get("log_format"))[:200],
-                                "failure": (f.getTraceback()[-600:] if f is not None else None)})
+                                "failure": (f.getTraceback()[-600:] if f is not None else None)} if key not in self.ctx.violations else {})
         if (o1 == "returned") != (self.ctl.got == got0 + 1) and o3 == "returned":
             self.ctx.violation("udp-delivery-differs-from-decode", "datagramReceived delivered/dropped differently from Message.fromStr",
                                {"input_hex": data.hex(), "origin": origin, "fromStr": o1, "delivered": self.ctl.got - got0})
@@ -538,6 +651,7 @@ def run(ctx):
                     if has_cycle(c):
                         ctx.count("inputs_with_pointer_cycle")
                     mon.check(c, origin="corpus")
+            run_chains(ctx, mon, dns)
             for i in ctx.cases(40000, 2000000):
                 if mon.nonterm >= 3:
                     ctx.count("stopped_after_nontermination")
